@@ -14,10 +14,36 @@ func c19Observers(N int) {
 	} else {
 		g = vgSparse(adj)
 	}
-	f := rt.Choice("fnA", 7)
-	h := rt.Choice("fnB", 7)
+	f := rt.Choice("fnA", 12)
+	h := rt.Choice("fnB", 12)
 	run := func(k int) int {
 		switch k {
+		case 7:
+			return IndependenceNumber(g)
+		case 8:
+			// degree queries through the lazy complement view
+			s := 0
+			for _, d := range Complement(g).Degrees() {
+				s += d
+			}
+			return s
+		case 9:
+			d, _ := Degeneracy(g)
+			return d
+		case 10:
+			x, _ := ChromaticIndex(g)
+			return x
+		case 11:
+			// PruferEncode is defined on trees only
+			if n < 2 || !c07IsTree(adj) {
+				return -2
+			}
+			code := PruferEncode(g)
+			s := 0
+			for _, v := range code {
+				s = s*n + v
+			}
+			return s
 		case 6:
 			// every outcome of the draws is a path, so only the shape of the result is
 			// compared with a solo run; the shared state at stake is the random source
